@@ -26,8 +26,16 @@ mod __verif_native_containers {
                 Ok(Err(_)) => {}
             }
         }
-        check(no_panic(|| arc::from_bytes(bytes).is_ok()).is_ok(), "C05.arc_parser_never_panics", show);
-        check(no_panic(|| fe9_arc::parse(bytes).is_ok()).is_ok(), "C05.pack_parser_never_panics", show);
+        let (r, big) = largest_request_during(|| no_panic(|| arc::from_bytes(bytes).is_ok()));
+        check(r.is_ok(), "C05.arc_parser_never_panics", show);
+        check(big <= 64 * bytes.len() + 65536, "C05.no_allocation_sized_by_an_unchecked_field", || format!("{} : arc::from_bytes requested {} bytes at once", show(), big));
+        let (r, big) = largest_request_during(|| no_panic(|| fe9_arc::parse(bytes).is_ok()));
+        check(r.is_ok(), "C05.pack_parser_never_panics", show);
+        check(big <= 64 * bytes.len() + 65536, "C05.no_allocation_sized_by_an_unchecked_field", || format!("{} : fe9_arc::parse requested {} bytes at once", show(), big));
+        for big_end in [false, true] {
+            let (_, big) = largest_request_during(|| no_panic(|| BinArchive::from_bytes(bytes, if big_end { Endian::Big } else { Endian::Little }).is_ok()));
+            check(big <= 64 * bytes.len() + 65536, "C05.no_allocation_sized_by_an_unchecked_field", || format!("{} : BinArchive::from_bytes requested {} bytes at once", show(), big));
+        }
     }
     /// prefixes and single-field corruptions of a valid image
     fn totality_family(img: &[u8], what: &str) {
@@ -108,8 +116,9 @@ mod __verif_native_containers {
             img[0..4].copy_from_slice(&0x7061636Bu32.to_be_bytes()); img[4..6].copy_from_slice(&(n as u16).to_be_bytes());
             let mut body_at = Vec::new();
             for (_, b) in set { body_at.push(img.len()); img.extend_from_slice(b); img.push(0xCC); }
-            let mut name_at = Vec::new();
-            for (k, _) in set { name_at.push(img.len()); img.extend_from_slice(&encoding_rs::SHIFT_JIS.encode(k).0); img.push(0); }
+            // names in REVERSE entry order, separated by filler, so that only the recorded addresses find them
+            let mut name_at = vec![0usize; n];
+            for (i, (k, _)) in set.iter().enumerate().rev() { img.extend_from_slice(&[0xDD, 0xDD, 0]); name_at[i] = img.len(); img.extend_from_slice(&encoding_rs::SHIFT_JIS.encode(k).0); img.push(0); }
             // last body moved to the very end of the image
             let last = n - 1; body_at[last] = img.len(); img.extend_from_slice(&set[last].1);
             for i in 0..n { let r = 8 + 16 * i; img[r + 4..r + 8].copy_from_slice(&(name_at[i] as u32).to_be_bytes()); img[r + 8..r + 12].copy_from_slice(&(body_at[i] as u32).to_be_bytes()); img[r + 12..r + 16].copy_from_slice(&(set[i].1.len() as u32).to_be_bytes()); }
@@ -176,6 +185,13 @@ mod __verif_native_containers {
                     Err(p) => { check(false, "C16.extraction_never_panics", || format!("{} variant {} -> {}", show(), hex(&bytes), p)); } }
             }
             totality_family(&img, "arc image");
+            // a record declaring far more bytes than the image holds (the size field is the second word of the record)
+            for huge in [0x4000_0000u32, 0xFFFF_FFFF, 0x0100_0000] {
+                let mut b = BinArchive::from_bytes(&img, Endian::Little).unwrap(); b.write_u32(info + 8, huge).unwrap();
+                totality(&b.serialize().unwrap(), "arc image with an oversized record");
+            }
+            { let a2 = BinArchive::from_bytes(&img, Endian::Little).unwrap(); let mut rd = crate::BinArchiveReader::new(&a2, 0);
+              check(matches!(no_panic(|| rd.read_bytes(usize::MAX).is_err()), Ok(true)), "C05.stream_reader_never_panics", || "read_bytes(usize::MAX)".to_string()); }
         } } }
     }
 
